@@ -141,12 +141,12 @@ SeedDbs == {EmptyDb, Seed1, Seed2, Seed3}
 InitSeeded == /\ db \in SeedDbs /\ tx = db /\ cur = db
               /\ sess \in {"none", "open"} /\ pendNew = {} /\ pendDel = {} /\ known = {} /\ loadedB = {}
               /\ ev = Ev("Init", "-", 0, 0, 0, "ok", {})
-              /\ view = ViewOf(cur)
+              /\ view = [ViewOf(cur) EXCEPT !.quiet = (sess = "open")]
 
 Init == /\ db = EmptyDb /\ tx = EmptyDb /\ cur = EmptyDb
         /\ sess = "none" /\ pendNew = {} /\ pendDel = {} /\ known = {} /\ loadedB = {}
         /\ ev = Ev("Init", "-", 0, 0, 0, "ok", {})
-        /\ view = ViewOf(cur)
+        /\ view = [ViewOf(cur) EXCEPT !.quiet = (sess = "open")]
 
 Begin == /\ sess = "none"
          /\ sess' = "open" /\ cur' = db /\ tx' = db
